@@ -456,6 +456,21 @@ def gen_portfolio(rnd, kinds=None, tmax=14, tz_prob=0.15, allow_mip=True, max_as
             a = gen_transport(rnd, g, prices, T, newname('tr'), two[0], two[1])
         elif kind == 'ext_transport' and two:
             a = gen_transport(rnd, g, prices, T, newname('xt'), two[0], two[1], ext=True)
+        elif kind == 'multi_nt' and two:
+            a = gen_simple_contract(rnd, g, prices, T, newname('mc'), two[0])
+            a['type'] = 'MultiCommodityContract'
+            a['nodes'] = two
+            a['args']['factors_commodities'] = [rnd.choice([1.0, 0.5, -1.0, 2.0]) for _ in two]
+        elif kind == 'plant_lp':
+            a = gen_plant(rnd, g, prices, T, newname('pl'), [node], chp=False, allow_mip=False)
+            a['args'].pop('ramp', None)
+            a['args'].pop('last_dispatch', None)
+        elif kind == 'storage_se':
+            a = gen_storage(rnd, g, prices, T, newname('st'), [node], False, False)
+            lvl = q8(rnd, 0, a['args']['size'])
+            a['args']['start_level'] = lvl
+            a['args']['end_level'] = lvl
+            a['args'].pop('inflow', None)
         elif kind == 'storage':
             a = gen_storage(rnd, g, prices, T, newname('st'), [node], allow_mip, allow_blocks)
         elif kind == 'storage2' and two:
@@ -540,6 +555,9 @@ def gen_portfolio(rnd, kinds=None, tmax=14, tz_prob=0.15, allow_mip=True, max_as
                 if rnd.random() < 0.4:
                     tgt['periodicity_duration'] = ('%dmin' % (tot * 2 // 60)) if (tot * 2) % 3600 else ('%dh' % (tot * 2 // 3600))
         assets.append(a)
+    if not assets:
+        assets.append({'type': 'SimpleContract', 'name': newname('mkt'), 'nodes': [node_names[0]],
+                       'args': {'min_cap': -40.0, 'max_cap': 40.0, 'price': price_key(rnd, prices, T)}})
     all_nodes = list(node_names)
     for a in assets:
         for x in a.get('inner_nodes', []):
